@@ -2,6 +2,7 @@ mod host;
 mod util;
 mod paging;
 mod z80rec;
+mod timing;
 
 fn main() {
     let mut it = std::env::args().skip(1);
@@ -13,6 +14,7 @@ fn main() {
     match cmd.as_str() {
         "paging" => paging::run(&args),
         "z80" => z80rec::run(&args),
+        "timing" => timing::run(&args),
         _ => {
             eprintln!("unknown sub-command {cmd:?}");
             std::process::exit(2);
